@@ -314,7 +314,7 @@ fn hostile(s: &str) -> bool {
 }
 
 pub fn run(ctx: &mut Ctx) {
-    ctx.rule("alphabet: every string over {a . / \\\\ NUL} up to length L (quick 8, thorough 10), 1000 names per generated archive, observed through ZipFile of the seekable reader, ZipFile of the streaming reader and ZipStreamFileMetadata; components: every sequence of <=C components from {a,b,.,..,empty} x separator x leading/trailing/doubled separator x NUL position; mixed_separators: every sequence of <=M components (quick 6, thorough 7) from {a,.,..,empty} with '/' or '\\\\' chosen independently at every joint x {none,'/','\\\\'} leading separator; special_names: drive-letter/UNC/device prefixes x short tails, and components longer than 255 bytes with multi-byte characters at every offset around 255; every batch mixes producer host systems (Unix, MS-DOS, NTFS, other) and flagged/unflagged ASCII names; random: Unicode/control names up to 64 KiB. Oracle: validity predicates on the result + string model. Non-trivial = name contains '..', a leading separator, NUL or backslash; all enumerated names are distinct by construction.");
+    ctx.rule("alphabet: every string over {a . / \\\\ NUL} up to length L (quick 8, thorough 10), 1000 names per generated archive, observed through ZipFile of the seekable reader, ZipFile of the streaming reader and ZipStreamFileMetadata; components: every sequence of <=C components from {a,b,.,..,empty} x separator x leading/trailing/doubled separator x NUL position; mixed_separators: every sequence of <=M components (quick 6, thorough 7) from {a,.,..,empty} with '/' or '\\\\' chosen independently at every joint x {none,'/','\\\\'} leading separator; special_names: drive-letter/UNC/device prefixes x short tails, components longer than 255 bytes with multi-byte characters at every offset around 255, and ordinary components that only look like '.' / '..' ('.. ', ' ..', '...', '..<TAB>', '..<NBSP>': blank padding, trailing dots) in every position; every batch mixes producer host systems (Unix, MS-DOS, NTFS, other) and flagged/unflagged ASCII names; random: Unicode/control names up to 64 KiB. Oracle: validity predicates on the result + string model. Non-trivial = name contains '..', a leading separator, NUL or backslash; all enumerated names are distinct by construction.");
     ctx.assume("host path semantics are Unix ('/' separates, '\\\\' is an ordinary character for enclosed_name and a separator for mangled_name)");
     const B: u64 = 1000;
     let l = ctx.q(8u32, 10);
@@ -385,6 +385,14 @@ pub fn run(ctx: &mut Ctx) {
             special.push(format!("{}{}{}", "p".repeat(pad), ch.repeat(6), "/t"));
             special.push(format!("x/{}{}", "p".repeat(pad), ch.repeat(3)));
             special.push(format!("{}{}/../../t", ch.repeat(2), "p".repeat(pad)));
+        }
+    }
+    // ordinary components that turn into '.' / '..' if a sanitiser trims or normalises them (FAT blank padding,
+    // trailing dots, tabs): they must come through verbatim
+    for d in [".. ", " ..", "..  ", ".. .", "...", "..\t", "..;", ".. /", ". ", " .", " ", ".\u{a0}.", "..\u{a0}"] {
+        let d = d.replace("\\t", "\t");
+        for shape in ["{d}/x", "a/{d}/{d}/x", "{d}/{d}/{d}/etc/passwd", "{d}\\x", "a/{d}", "{d}", "/{d}/x", "a\\{d}\\{d}\\x"] {
+            special.push(shape.replace("{d}", &d));
         }
     }
     let special = std::sync::Arc::new(special);
